@@ -1502,7 +1502,17 @@ func (g *Gen) scenarios() []intent {
 			if g.rng.Intn(2) == 0 { // a wrong guess in between does not make the spent code fresh again
 				out = append(out, g.req(b2, "POST", "TotpValidate", []KV{{"code", lit(pickS(g.rng, "000000", "12345", "Passw0rd!x"))}}))
 			}
-			return append(out, g.req(b2, "POST", "TotpValidate", []KV{{"code", again}}))
+			out = append(out, g.req(b2, "POST", "TotpValidate", []KV{{"code", again}}))
+			if g.rng.Intn(2) == 0 {
+				// ... nor does the code that just logged the session in switch the factor off (it is not a CURRENT
+				// code any more), neither at once nor - the stored last code - much later
+				if g.rng.Intn(2) == 0 {
+					out = append(out, SymStep{Kind: "tick", D: 7000})
+					again = Desc{K: "stored", U: u, V: "totp_last"}
+				}
+				out = append(out, g.req(b1, "POST", "TotpRemove", []KV{{"code", again}}))
+			}
+			return out
 		})
 	}
 	if c.EmailAuth && (c.Totp || c.Sms) {
